@@ -205,11 +205,23 @@ MOut ==
   IF S.mode \notin MeshModes THEN {}
   ELSE (IF S.wmesh /\ ~IterMesh THEN {IF S.mesh_hdf5 THEN "mesh.hdf5" ELSE "mesh.yaml"} ELSE {}) \cup SubOut
 
+(* animation, modulation, irreducible representations: one library call, its own files *)
+XCalls ==
+  CASE S.mode = "anime" -> <<Call("run_anime", "")>>
+    [] S.mode = "modulation" -> <<Call("run_modulation", "")>>
+    [] S.mode = "irreps" -> <<Call("run_irreps", "")>>
+    [] OTHER -> <<>>
+XOut ==
+  CASE S.mode = "anime" -> {"ANIME"}
+    [] S.mode = "modulation" -> {"modulation.yaml", "MODULATED"}
+    [] S.mode = "irreps" -> {"irreps.yaml"}
+    [] OTHER -> {}
+
 Run ==
   /\ pc = "run"
   /\ IF QFails THEN Fail("no q-points")
-     ELSE /\ calls' = calls \o QCalls \o BCalls \o MCalls
-          /\ out' = out \cup QOut \cup BOut \cup MOut
+     ELSE /\ calls' = calls \o QCalls \o BCalls \o MCalls \o XCalls
+          /\ out' = out \cup QOut \cup BOut \cup MOut \cup XOut
           /\ pc' = "final"
           /\ UNCHANGED <<wc, status, fcsrc, nacsrc, cellsrc, nacfac>>
 
@@ -228,7 +240,7 @@ WSpec == WInit /\ [][WNext]_wvars
 Names == {calls[i].name : i \in 1..Len(calls)}
 Index(n) == CHOOSE i \in 1..Len(calls) : calls[i].name = n
 RunCalls == {"run_qpoints", "run_band", "run_mesh", "run_tprop", "run_tdisp", "run_tdm", "run_pdos", "run_dos",
-             "run_moment"}
+             "run_moment", "run_anime", "run_modulation", "run_irreps"}
 FcCalls == {"produce_fc", "set_fc"}
 
 WorkflowPreconditions ==
@@ -249,6 +261,9 @@ Needs(f) ==
     [] f \in {"thermal_displacement_matrices.yaml", "tdispmat.cif"} -> "run_tdm"
     [] f = "projected_dos.dat" -> "run_pdos"
     [] f = "total_dos.dat" -> "run_dos"
+    [] f = "ANIME" -> "run_anime"
+    [] f \in {"modulation.yaml", "MODULATED"} -> "run_modulation"
+    [] f = "irreps.yaml" -> "run_irreps"
     [] f \in {"FORCE_CONSTANTS", "force_constants.hdf5", "FORCE_CONSTANTS_SPG"} -> "fc"
     [] f \in {"phonopy_disp.yaml", "SUPERCELLS"} -> "generate_displacements"
     [] f = "FORCE_SETS" -> "create_force_sets"
